@@ -27,32 +27,32 @@ from . import common as K
 def find_parse_mods(rs):
     """-> {start_nt: (open_index, close_index)} for each `mod __parse__X {` ... `}`."""
     out = {}
-    for m in re.finditer(r"^mod (__parse__(\w+)) \{\n", rs, re.M):
+    for m in re.finditer(r"^mod ((?P<p>_+)parse(?P=p)(\w+)) \{\n", rs, re.M):
         start = m.end()
         # the module closes at the first line that is exactly "}" after `start`
         close = rs.index("\n}\n", start)
-        out[m.group(2)] = (m.start(), close + 1)
+        out[m.group(3)] = (m.start(), close + 1, m.group("p"))
     return out
 
 
-def state_type(mod_text):
-    m = re.search(r"fn __action\(state: (i8|i16|i32), integer: usize\) -> (i8|i16|i32)", mod_text)
+def state_type(mod_text, p="__"):
+    m = re.search(r"fn " + p + r"action\(state: (i8|i16|i32), integer: usize\) -> (i8|i16|i32)", mod_text)
     if not m:
         raise K.Inconclusive("cannot find `fn __action` in generated module (table-driven backend expected)")
     return m.group(1)
 
 
-def phantom_expr(mod_text):
+def phantom_expr(mod_text, p="__"):
     """The generated helper fns take a trailing PhantomData argument whose type depends on the
     grammar's type parameters; copy the expression the generator itself uses."""
-    m = re.search(r"__token_to_integer\(token, (core::marker::PhantomData::<\(.*?\)>)\)", mod_text)
+    m = re.search(p + r"token_to_integer\(token, (core::marker::PhantomData::<\(.*?\)>)\)", mod_text)
     if not m:
         raise K.Inconclusive("cannot find the PhantomData argument convention")
     return m.group(1)
 
 
-def error_column(mod_text):
-    m = re.search(r"fn error_action\(&self, state: \w+\) -> \w+ \{\s*__action\(state, (\d+) - 1\)", mod_text)
+def error_column(mod_text, p="__"):
+    m = re.search(r"fn error_action\(&self, state: \w+\) -> \w+ \{\s*" + p + r"action\(state, (\d+) - 1\)", mod_text)
     return int(m.group(1)) - 1 if m else None
 
 
@@ -64,7 +64,7 @@ def uses_recovery(mod_text):
 VERIF_MOD = r'''
     #[cfg(kani)]
     #[allow(dead_code, unused)]
-    pub mod __verif {
+    pub mod verif_inj {
         //! Injected by /verif (engine E1).  Everything here only *calls* the generated items of
         //! the parent module; nothing is copied from them.
         use super::*;
@@ -77,7 +77,7 @@ VERIF_MOD = r'''
 
         #[inline(never)]
         pub fn act(top: St, tok: Option<usize>) -> St {
-            match tok { Some(t) => __action(top, t), None => __EOF_ACTION[top as usize] }
+            match tok { Some(t) => @P@action(top, t), None => @P@EOF_ACTION[top as usize] }
         }
         /// Specification of an LR automaton run, driven over the real table functions.
         pub fn lr_run(toks: &[usize], n: usize, fuel: usize) -> Run {
@@ -95,14 +95,14 @@ VERIF_MOD = r'''
                     sp += 1; stack[sp] = a - 1; pos += 1; rss = 0;
                 } else if a < 0 {
                     rss += 1;
-                    match __simulate_reduce(-(a + 1), @PH@) {
-                        __state_machine::SimulatedReduce::Accept => {
+                    match @P@simulate_reduce(-(a + 1), @PH@) {
+                        @P@state_machine::SimulatedReduce::Accept => {
                             return Run { out: if pos == n { Out::Accept } else { Out::Extra }, at: pos, sp, stack, steps, reds_since_shift: rss };
                         }
-                        __state_machine::SimulatedReduce::Reduce { states_to_pop, nonterminal_produced } => {
+                        @P@state_machine::SimulatedReduce::Reduce { states_to_pop, nonterminal_produced } => {
                             if states_to_pop > sp || sp - states_to_pop + 1 >= D { return Run { out: Out::Bound, at: pos, sp, stack, steps, reds_since_shift: rss }; }
                             sp -= states_to_pop;
-                            let g = __goto(stack[sp], nonterminal_produced);
+                            let g = @P@goto(stack[sp], nonterminal_produced);
                             sp += 1; stack[sp] = g;
                         }
                     }
@@ -112,7 +112,7 @@ VERIF_MOD = r'''
             }
             Run { out: Out::Bound, at: pos, sp, stack, steps, reds_since_shift: rss }
         }
-        /// Documented meaning of the generated `__accepts(None, stack, tok)`: simulating the tables
+        /// Documented meaning of the generated `@P@accepts(None, stack, tok)`: simulating the tables
         /// from `stack` on lookahead `tok` reaches a shift / accept before an error.
         /// Some(b) = decided, None = bound hit.
         pub fn listed_tab(stack0: &[St; D], sp0: usize, tok: Option<usize>, fuel: usize) -> Option<bool> {
@@ -124,23 +124,23 @@ VERIF_MOD = r'''
                 let a = act(stack[sp], tok);
                 if a == 0 { return Some(false); }
                 if a > 0 { return Some(true); }
-                match __simulate_reduce(-(a + 1), @PH@) {
-                    __state_machine::SimulatedReduce::Accept => return Some(true),
-                    __state_machine::SimulatedReduce::Reduce { states_to_pop, nonterminal_produced } => {
+                match @P@simulate_reduce(-(a + 1), @PH@) {
+                    @P@state_machine::SimulatedReduce::Accept => return Some(true),
+                    @P@state_machine::SimulatedReduce::Reduce { states_to_pop, nonterminal_produced } => {
                         if states_to_pop > sp || sp - states_to_pop + 1 >= D { return None; }
                         sp -= states_to_pop;
-                        let g = __goto(stack[sp], nonterminal_produced);
+                        let g = @P@goto(stack[sp], nonterminal_produced);
                         sp += 1; stack[sp] = g;
                     }
                 }
             }
             None
         }
-        pub fn tok_index(t: &@TOK@) -> Option<usize> { __token_to_integer(t, @PH@) }
-        pub const N_TERMINAL_NAMES: usize = __TERMINAL.len();
-        pub fn terminal_name(i: usize) -> &'static str { __TERMINAL[i] }
-        pub fn real_accepts(states: &[St], tok: Option<usize>) -> bool { __accepts(None, states, tok, @PH@) }
-        pub fn real_expected(states: &[St]) -> alloc::vec::Vec<alloc::string::String> { __expected_tokens_from_states(states, @PH@) }
+        pub fn tok_index(t: &@TOK@) -> Option<usize> { @P@token_to_integer(t, @PH@) }
+        pub const N_TERMINAL_NAMES: usize = @P@TERMINAL.len();
+        pub fn terminal_name(i: usize) -> &'static str { @P@TERMINAL[i] }
+        pub fn real_accepts(states: &[St], tok: Option<usize>) -> bool { @P@accepts(None, states, tok, @PH@) }
+        pub fn real_expected(states: &[St]) -> alloc::vec::Vec<alloc::string::String> { @P@expected_tokens_from_states(states, @PH@) }
 @EXTRA@
     }
 '''
@@ -154,18 +154,18 @@ def inject(rs, d_bound, tok_path="Tok", extra=""):
     info = {}
     # process from the end so indices stay valid
     new = rs
-    for start, (a, b) in sorted(mods.items(), key=lambda kv: -kv[1][0]):
+    for start, (a, b, p) in sorted(mods.items(), key=lambda kv: -kv[1][0]):
         body = rs[a:b]
-        st = state_type(body)
-        ph = phantom_expr(body)
-        inj = (VERIF_MOD.replace("@ST@", st).replace("@D@", str(d_bound)).replace("@PH@", ph)
+        st = state_type(body, p)
+        ph = phantom_expr(body, p)
+        inj = (VERIF_MOD.replace("@P@", p).replace("@ST@", st).replace("@D@", str(d_bound)).replace("@PH@", ph)
                .replace("@TOK@", tok_path).replace("@EXTRA@", extra))
         close = b - 1  # index of the closing brace line "}\n"
         new = new[:close] + inj + new[close:]
         info[start] = {"state_type": st, "phantom": ph, "recovery": uses_recovery(body),
-                       "error_column": error_column(body)}
-    for start in mods:
-        new += "#[cfg(kani)] pub use self::__parse__%s::__verif as __verif_%s;\n" % (start, start)
+                       "error_column": error_column(body, p), "prefix": p}
+    for start, (a, b, p) in mods.items():
+        new += "#[cfg(kani)] pub use self::%sparse%s%s::verif_inj as VX_%s;\n" % (p, p, start, start)
     return new, info
 
 
@@ -290,7 +290,7 @@ def oracle_rust(spec: Spec, m):
 
 
 HARNESS_COMMON = r'''
-    use crate::@GMOD@::__verif_@START@::*;
+    use crate::@GMOD@::VX_@START@::*;
     use crate::t_@GNAME@::{mk, Tok};
     pub const N: usize = @N@;
     pub const FUEL: usize = @FUEL@;
@@ -426,7 +426,7 @@ def generate(job: Job):
     if job.feat_env:
         for f in feats:
             env["CARGO_FEATURE_" + f.upper().replace("-", "_")] = "1"
-        return text, K.run_generator(text, job.g.name, env=env, features=None)
+        return text, K.run_generator_api(text, job.g.name, env=env, features=None)
     return text, K.run_generator(text, job.g.name, env=env, features=feats if feats else None)
 
 
